@@ -4,7 +4,7 @@
 set -e
 cd "$(dirname "$0")"
 export GOFLAGS=-mod=mod GOPROXY=off GOSUMDB=off GOTOOLCHAIN=local
-(cd coq && coq_makefile -f _CoqProject -o Makefile >/dev/null && timeout 3000 make -j16)
+(cd coq && ./mkproject.sh && timeout 3000 make -j16)
 cp /repo/go.sum harness/go.sum
 (cd harness && go build -o verifharness .)
 mkdir -p evidence replays work
